@@ -35,8 +35,9 @@ Ev(a, r) == [ev |-> a.op, a |-> a, amt |-> IF Has(a, "amount") THEN BOfInt(a.amo
 
 \* observables the replay compares bit-for-bit with the implementation
 ObsBank(b) == [asv |-> b.asv, lsv |-> b.lsv, tas |-> b.tas, tls |-> b.tls, fee_ins |-> b.fee_ins, fee_grp |-> b.fee_grp,
-               fee_prog |-> b.fee_prog, last_update |-> b.last_update, lend_cnt |-> b.lend_cnt, borrow_cnt |-> b.borrow_cnt]
-ObsSlot(s) == IF s.act = 1 THEN [act |-> 1, bank |-> s.bank, tag |-> s.tag, a |-> s.a, l |-> s.l] ELSE [act |-> 0]
+               fee_prog |-> b.fee_prog, last_update |-> b.last_update, lend_cnt |-> b.lend_cnt, borrow_cnt |-> b.borrow_cnt,
+               emis_rem |-> b.emis_rem]
+ObsSlot(s) == IF s.act = 1 THEN [act |-> 1, bank |-> s.bank, tag |-> s.tag, a |-> s.a, l |-> s.l, emis |-> s.emis, lu |-> s.lu] ELSE [act |-> 0]
 ObsAcct(a) == [bal |-> [i \in DOMAIN a.bal |-> ObsSlot(a.bal[i])]]
 Obs(s, banks, accts, toks) ==
   [banks |-> [b \in banks |-> ObsBank(s.banks[b])], accts |-> [a \in accts |-> ObsAcct(s.accts[a])],
@@ -96,7 +97,7 @@ Repay(an, bn, amt, all) ==
           IF IsErr(b1) THEN Fail(a, b1.err)
           ELSE LET i == FindSlot(ac.bal, bn) IN
                IF i = 0 THEN Fail(a, "BankAccountNotFound")
-               ELSE LET r == IF all THEN ImplRepayAll(b1, ac.bal, i) ELSE ImplIncrease(b1, ac.bal, i, FOfInt(amt), "RepayOnly", Now) IN
+               ELSE LET r == IF all THEN ImplRepayAll(b1, ac.bal, i, Now) ELSE ImplIncrease(b1, ac.bal, i, FOfInt(amt), "RepayOnly", Now) IN
                     IF IsErr(r) THEN Fail(a, r.err)
                     ELSE LET pay == PreFee(MintOf(bn), IF all THEN r.pay ELSE BOfInt(amt))
                              ut == UserTok(an, bn) have == TokOf(st, ut)
@@ -117,7 +118,7 @@ Withdraw(an, bn, amt, all) ==
           ELSE LET i == FindSlot(ac.bal, bn) IN
                IF i = 0 THEN Fail(a, "BankAccountNotFound")
                ELSE LET pre == PreFee(MintOf(bn), BOfInt(amt))
-                        r == IF all THEN ImplWithdrawAll(b1, ac.bal, i) ELSE ImplDecrease(b1, ac.bal, i, FOfBig(pre), "WithdrawOnly", Now) IN
+                        r == IF all THEN ImplWithdrawAll(b1, ac.bal, i, Now) ELSE ImplDecrease(b1, ac.bal, i, FOfBig(pre), "WithdrawOnly", Now) IN
                     IF IsErr(r) THEN Fail(a, r.err)
                     ELSE LET pay == IF all THEN r.pay ELSE pre
                              vault == TokOf(st, b1.vault_liq)
@@ -179,10 +180,20 @@ CloseBalance(an, bn) ==
           IF IsErr(b1) THEN Fail(a, b1.err)
           ELSE LET b2 == ImplUpdateCache(b1, Now) i == FindSlot(ac.bal, bn) IN
                IF i = 0 THEN Fail(a, "BankAccountNotFound")
-               ELSE LET r == ImplCloseBalance(b2, ac.bal, i) IN
+               ELSE LET r == ImplCloseBalance(b2, ac.bal, i, Now) IN
                     IF IsErr(r) THEN Fail(a, r.err)
                     ELSE LET post == [st EXCEPT !.banks[bn] = r.b, !.accts[an].bal = SortBal(r.bal)] IN
                          Do(a, "ok", post, Obs(post, {bn}, {an}, {}))
+
+\* lending_account_settle_emissions (permissionless): claim on the stored share values, no interest accrual
+SettleEmissions(an, bn) ==
+  LET a == [op |-> "settle_emissions", acct |-> an, bank |-> bn]
+      b0 == st.banks[bn] ac == st.accts[an]
+      i == FindSlot(ac.bal, bn)
+  IN IF i = 0 THEN Fail(a, "BankAccountNotFound")
+     ELSE LET cl == ImplClaim(b0, ac.bal[i], Now) IN
+          IF IsErr(cl) THEN Fail(a, cl.err)
+          ELSE LET post == [st EXCEPT !.banks[bn] = cl.b, !.accts[an].bal[i] = cl.s] IN Do(a, "ok", post, Obs(post, {bn}, {an}, {}))
 
 \* collect_bank_fees: floor(min(bucket, available)) in the order insurance, group, program
 CollectFees(bn) ==
@@ -307,6 +318,8 @@ Bankruptcy(an, bn, signer) ==
                                  !.tok = Xfer(@, MintOf(bn), b4.vault_ins, b4.vault_liq, covUp)]
                   IN Do(a, "ok", post, Obs(post, {bn}, {an}, {b4.vault_liq, b4.vault_ins}))
 
+\* banks with an emissions campaign in the seed state (settle_emissions is explored on those only)
+EmisBanks == {bn \in BankNames : Bit(InitState.banks[bn].flags, BANK_EMIS_LEND) \/ Bit(InitState.banks[bn].flags, BANK_EMIS_BORROW)}
 Init == /\ st = InitState /\ acc = C02AccNext(C02Acc0, InitState, [ev |-> "reset"], InitState)
         /\ acc7 = C07Acc0 /\ sid = 0 /\ depth = 0 /\ TLCSet(1, 1)
 
@@ -317,6 +330,7 @@ Next ==
           \/ Deposit(an, bn, amt) \/ Borrow(an, bn, amt)
           \/ Withdraw(an, bn, amt, FALSE) \/ Repay(an, bn, amt, FALSE)
      \/ \E an \in Accts, bn \in BankNames : Withdraw(an, bn, 0, TRUE) \/ Repay(an, bn, 0, TRUE) \/ CloseBalance(an, bn)
+     \/ \E an \in Accts, bn \in EmisBanks : SettleEmissions(an, bn)
      \/ \E bn \in BankNames : Accrue(bn) \/ CollectFees(bn)
      \/ \E t \in LiqTriples, q \in Amounts : Liquidate(t[1], t[2], t[3], t[4], q)
      \/ \E p \in Prices : SetPrice(p[1], p[2], p[3])
